@@ -336,8 +336,13 @@ example : (run foldSimp exOracle {} exEnv
     Hypotheses, all visible: `hcodes` — the world's code is the known code; `hcb` — code is a byte string; `hz` —
     every modelled account starts with zero storage; `hdep` — the reference's depth limit admits 1024 nested frames
     (beyond it the model's path ends stuck); `hmem` as in `sound`; `hd0` — `f0` is a top-level frame.
-    Symbolic call targets, precompiles and cheat-code addresses, and a call value other than the literal 0 end the
-    path stuck: an error report, about which nothing is claimed. -/
+    Also covered (decoded by the frame-stack machine): LOG0..LOG4 — `WRelM` says `w'.logs = w.logs ++` the end's
+    events evaluated under `I` (emitting account, topics, data bytes; the events of failed callees are gone, as in the
+    EVM; LOG in a static frame is WriteInStaticContext) —, EXTCODESIZE / EXTCODECOPY on literal addresses, CODESIZE.
+    Symbolic call / EXTCODE* targets, precompiles (as call targets) and cheat-code addresses, and a call value other
+    than the literal 0 end the path stuck: an error report, about which nothing is claimed. Tagged ends (no claim):
+    see `Tag` — among them `errKind` (LOG in a static frame with too few operands: the code reports
+    WriteInStaticContext, the EVM a stack underflow). -/
 theorem sound_calls {s : Simp} (hs : SimpSound s) (o : Oracle) (cfg : Cfg) (env : Env)
     (codes : List (Nat × List Nat)) (this : Nat) (fuel : Nat) (p : Evm.Params) (w : Evm.World)
     (hmem : cfg.maxMem + 32 ≤ p.memLimit) (hdep : 1024 ≤ p.maxDepth)
@@ -349,7 +354,7 @@ theorem sound_calls {s : Simp} (hs : SimpSound s) (o : Oracle) (cfg : Cfg) (env 
     (f0 : Evm.Frame) (hR0 : R I env ((codeOf codes this).getD []) p initState f0) (hthis : f0.this = this)
     (hd0 : f0.depth = 0) (hsat : Sat I ce.e.st.path) :
     ∃ n w', Evm.exec p n w f0 = some (w', haltWith h (ce.e.data.map (·.eval I))) ∧
-        WRelM I (Modelled codes this) w w' (stoOf ce.stores) := by
+        WRelM I (Modelled codes this) w w' (stoOf ce.stores) (evalLogs I ce.logs) := by
   have hgood := exploreC_sound (o := o) (cfg := cfg) (codes := codes) (p := p) (w0 := w)
     (S := Modelled codes this) (cs0 := initC env codes this) hs hmem hdep hcodes
     (fun _ _ h => modelled_of_code h) hcb fuel 0 [initC env codes this] {} (by
@@ -425,6 +430,65 @@ example : ∃ n w', Evm.exec exPC n exWC { exF0 with code := callerCode } =
 example : (Evm.exec exPC 40 exWC { exF0 with code := callerCode }).map
       (fun r => (r.2, Evm.lookupD r.1.storage (0x2000, 0), Evm.lookupD r.1.storage (0x1000, 1))) =
     some (.success (List.replicate 31 0 ++ [0x2a]), 7, 0x2a) := by decide +kernel
+
+/-- the world's log, spelled out: what `sound_calls` says about events -/
+theorem sound_calls_logs {s : Simp} (hs : SimpSound s) (o : Oracle) (cfg : Cfg) (env : Env)
+    (codes : List (Nat × List Nat)) (this : Nat) (fuel : Nat) (p : Evm.Params) (w : Evm.World)
+    (hmem : cfg.maxMem + 32 ≤ p.memLimit) (hdep : 1024 ≤ p.maxDepth)
+    (hcodes : ∀ a, w.codeOf a = codeOf codes a)
+    (hcb : ∀ a prog, codeOf codes a = some prog → ∀ b ∈ prog, b < 256)
+    (hz : ∀ a, Modelled codes this a → ZeroStorage w a)
+    (ce : CEnd) (hce : ce ∈ (runC s o cfg env codes this fuel).ends)
+    (htag : ce.e.tag = .normal) (h : Evm.Halt) (hout : ce.e.out = .halt h) (I : Interp) (hI : I.Std)
+    (f0 : Evm.Frame) (hR0 : R I env ((codeOf codes this).getD []) p initState f0) (hthis : f0.this = this)
+    (hd0 : f0.depth = 0) (hsat : Sat I ce.e.st.path) :
+    ∃ n w', Evm.exec p n w f0 = some (w', haltWith h (ce.e.data.map (·.eval I))) ∧
+        w'.logs = w.logs ++ ce.logs.map (fun l => (l.addr.eval I, l.topics.map (·.denote I), l.data.map (·.eval I))) := by
+  obtain ⟨n, w', hn, hW⟩ := sound_calls hs o cfg env codes this fuel p w hmem hdep hcodes hcb hz ce hce htag h hout I hI
+    f0 hR0 hthis hd0 hsat
+  exact ⟨n, w', hn, hW.rest.2.2.2.2⟩
+
+/-- events: the callee at 0x2000 emits `LOG1(topic 7, mem[0..32) = 0x2a)` and then stops (`logCallee true`) or hits
+    INVALID (`logCallee false`); the caller calls it and emits an empty `LOG0`. On both sides the world's log is the
+    callee's event followed by the caller's when the callee succeeds, and the caller's alone when it fails. -/
+def logCallee (ok : Bool) : List Nat :=
+  [0x60, 0x2a, 0x60, 0, 0x52, 0x60, 7, 0x60, 32, 0x60, 0, 0xa1, if ok then 0x00 else 0xfe]
+def logCaller : List Nat :=
+  [0x60, 0, 0x60, 0, 0x60, 0, 0x60, 0, 0x60, 0, 0x61, 0x20, 0x00, 0x60, 0, 0xf1, 0x50, 0x60, 0, 0x60, 0, 0xa0, 0x00]
+def logCodes (ok : Bool) : List (Nat × List Nat) := [(0x1000, logCaller), (0x2000, logCallee ok)]
+
+example :
+    (runC foldSimp exOracle {} exEnv (logCodes true) 0x1000 100).ends.map (fun ce => (ce.e.out, ce.e.tag)) =
+      [(.halt (.success []), .normal)] ∧
+    (runC foldSimp exOracle {} exEnv (logCodes true) 0x1000 100).ends.map (fun ce => evalLogs exI ce.logs) =
+      [[(0x2000, [7], List.replicate 31 0 ++ [0x2a]), (0x1000, [], [])]] ∧
+    (Evm.exec exPC 40 { exWC with code := logCodes true } { exF0 with code := logCaller }).map (fun r => r.1.logs) =
+      some [(0x2000, [7], List.replicate 31 0 ++ [0x2a]), (0x1000, [], [])] := by
+  decide +kernel
+
+example :
+    (runC foldSimp exOracle {} exEnv (logCodes false) 0x1000 100).ends.map (fun ce => (ce.e.out, ce.e.tag)) =
+      [(.halt (.success []), .normal)] ∧
+    (runC foldSimp exOracle {} exEnv (logCodes false) 0x1000 100).ends.map (fun ce => evalLogs exI ce.logs) =
+      [[(0x1000, [], [])]] ∧
+    (Evm.exec exPC 40 { exWC with code := logCodes false } { exF0 with code := logCaller }).map (fun r => r.1.logs) =
+      some [(0x1000, [], [])] := by
+  decide +kernel
+
+/-- EXTCODESIZE / EXTCODECOPY / CODESIZE on both sides: `mstore(0, extcodesize(0x2000)); mstore(32, codesize());
+    extcodecopy(0x2000, 64, 0, 4); return(0, 68)` with the callee of the first example at 0x2000 -/
+def extCode : List Nat :=
+  [0x61, 0x20, 0x00, 0x3b, 0x60, 0, 0x52, 0x38, 0x60, 32, 0x52, 0x60, 4, 0x60, 0, 0x60, 64, 0x61, 0x20, 0x00, 0x3c,
+   0x60, 68, 0x60, 0, 0xf3]
+
+example :
+    (runC foldSimp exOracle {} exEnv [(0x1000, extCode), (0x2000, calleeCode)] 0x1000 100).ends.map
+        (fun ce => (ce.e.out, ce.e.tag, ce.e.data.map (·.eval exI))) =
+      [(.halt (.success []), .normal,
+        List.replicate 31 0 ++ [15] ++ List.replicate 31 0 ++ [26] ++ [0x60, 7, 0x60, 0])] ∧
+    (Evm.exec exPC 40 { exWC with code := [(0x1000, extCode), (0x2000, calleeCode)] } { exF0 with code := extCode }).map
+        (·.2) = some (.success (List.replicate 31 0 ++ [15] ++ List.replicate 31 0 ++ [26] ++ [0x60, 7, 0x60, 0])) := by
+  decide +kernel
 
 /-- a reverting callee: `sstore(0, 7); mstore(0, 0x2a); revert(0, 32)` -/
 def revCallee : List Nat := [0x60, 7, 0x60, 0, 0x55, 0x60, 0x2a, 0x60, 0, 0x52, 0x60, 32, 0x60, 0, 0xfd]
